@@ -59,24 +59,30 @@ impl RcvdPacketQueue {
         self.one_rtt.close();
     }
 
+    /// Hand a received packet to the queue of its packet type.
+    ///
+    /// A packet that finds its queue full is dropped, as a full socket buffer would drop it.
+    /// Waiting for room here would stall the receive task of the whole interface, and for good if
+    /// the queue cannot drain before a later packet is processed (1-RTT packets queued while the
+    /// keys are still missing, ahead of the Handshake packet that completes the handshake).
     pub async fn deliver(&self, packet: Packet, way: Way) {
         match packet {
             Packet::Data(packet) => match packet.header {
                 DataHeader::Long(long::DataHeader::Initial(header)) => {
                     let packet = CipherPacket::new(header, packet.bytes, packet.offset);
-                    _ = self.initial.send((packet, way)).await;
+                    _ = self.initial.try_send((packet, way));
                 }
                 DataHeader::Long(long::DataHeader::Handshake(header)) => {
                     let packet = CipherPacket::new(header, packet.bytes, packet.offset);
-                    _ = self.handshake.send((packet, way)).await;
+                    _ = self.handshake.try_send((packet, way));
                 }
                 DataHeader::Long(long::DataHeader::ZeroRtt(header)) => {
                     let packet = CipherPacket::new(header, packet.bytes, packet.offset);
-                    _ = self.zero_rtt.send((packet, way)).await;
+                    _ = self.zero_rtt.try_send((packet, way));
                 }
                 DataHeader::Short(header) => {
                     let packet = CipherPacket::new(header, packet.bytes, packet.offset);
-                    _ = self.one_rtt.send((packet, way)).await;
+                    _ = self.one_rtt.try_send((packet, way));
                 }
             },
             Packet::VN(_vn) => {}
